@@ -680,8 +680,10 @@ class BufferByteArray(XBuffer):
 
     def update_from_buffer(self, offset, source):
         """Copy data from python buffer such as bytearray, bytes, memoryview, numpy array.data"""
-        nbytes = len(source)
-        self.buffer[offset : offset + nbytes] = source
+        # len() counts ITEMS: for a typed view (e.g. the .data of an int16
+        # array) that is not the number of bytes
+        data = bytearray(source)
+        self.buffer[offset : offset + len(data)] = data
 
     def to_nplike(self, offset, dtype, shape):
         """view in nplike"""
@@ -732,8 +734,10 @@ class BufferNumpy(XBuffer):
 
     def update_from_buffer(self, offset, source):
         """Copy data from python buffer such as bytearray, bytes, memoryview, numpy array.data"""
-        nbytes = len(source)
-        self.buffer[offset : offset + nbytes] = bytearray(source)
+        # len() counts ITEMS: for a typed view (e.g. the .data of an int16
+        # array) that is not the number of bytes
+        data = bytearray(source)
+        self.buffer[offset : offset + len(data)] = data
 
     def to_nplike(self, offset, dtype, shape):
         """view in nplike"""
